@@ -589,7 +589,18 @@ func c14Judge(m c14Method, c c14Case) (clause, detail string) {
 		return "", ""
 	}
 	switch c.BodyID {
+	case "member-failure":
+		if err == nil {
+			return "non-success-status-served-as-valid-data", "the call returns nil although the multistatus reports a member that could not be handled"
+		}
+		var he *internal.HTTPError
+		if !errors.As(err, &he) || he.Code != c.WantCode {
+			return "resource-error-without-status", fmt.Sprintf("error %q does not carry status %d", err.Error(), c.WantCode)
+		}
 	case "valid":
+		if c.Status == 207 && (m.Name == "webdav.RemoveAll" || m.Name == "webdav.Copy" || m.Name == "webdav.Move") {
+			break // a 207 answer to DELETE/COPY/MOVE must carry a multistatus; their usual (empty) body is none: not judged
+		}
 		if err != nil && c.CT == m.OKCT {
 			return "valid-response-refused", err.Error()
 		}
@@ -628,6 +639,14 @@ func c14HTTPCases(m c14Method, full bool) []c14Case {
 			for _, id := range order {
 				out = append(out, c14Case{Method: m.Name, Kind: "http", Status: st, CT: ct, Body: bodies[id], BodyID: id})
 			}
+		}
+	}
+	// DELETE, COPY and MOVE on a collection answer 207 when a MEMBER could not be handled (RFC 4918 9.6.1,
+	// 9.8.5, 9.9.4): the failure of that member is the failure of the call
+	if m.Name == "webdav.RemoveAll" || m.Name == "webdav.Copy" || m.Name == "webdav.Move" {
+		for _, st := range []int{423, 403, 507} {
+			doc := c14Doc([]c14Resp{{Href: "/f/locked-member", Status: st, ErrCond: st == 423}}, false)
+			out = append(out, c14Case{Method: m.Name, Kind: "http", Status: 207, CT: "application/xml; charset=utf-8", Body: doc, BodyID: "member-failure", WantCode: st})
 		}
 	}
 	// the DAV and Allow headers on several lines; entity-tag, date and location headers in unusual forms
